@@ -225,6 +225,9 @@ def pyx_body_to_ast(fn: PyxFunc, relpath: str) -> List[ast.stmt]:
             if '=' not in rest:
                 continue            # pure declaration
             text = rest
+        # C casts `<byte>(expr)` / `<uint_fast16_t>4` and address-of in memcpy/memset arguments have no Python spelling
+        text = re.sub(r'<\s*(?:unsigned\s+)?[A-Za-z_]\w*\s*\*?\s*>(?=\s*[\w(])', '', text)
+        text = re.sub(r'(?<=[(,\s])&(?=\w+\[)', '', text)
         out.append(' ' * (ln.indent - base) + text)
     src = '\n'.join(out) + '\n'
     try:
